@@ -848,7 +848,9 @@ def adversarial_args():
             ("base58-addr-1char-changed", changed_char(ADDR58)), ("bech32-addr-1char-changed", changed_char(BECH)),
             ("bech32-empty-data", "a12uel5l"), ("bech32m-empty-data", "a1lqfn3a"), ("base58check-of-nothing", "3QJmnh"),
             ("int64-overflow", "9223372036854775808"), ("5-byte-number", "0x0102030405"), ("unclosed-bracket", "[OP_1"),
-            ("quote", "\"abc")]
+            ("quote", "\"abc"),
+            # inline functions that throw or fail while the ARGUMENT is being compiled (before the transform itself runs)
+            ("inline-throws", "int(0x0102030405)"), ("inline-unknown", "nosuchfn(1)"), ("inline-fails", "bech32dec(x)"), ("inline-nested-throw", "[hex(int(0x0102030405))]")]
 
 
 def tf_commands():
